@@ -1,6 +1,7 @@
 (* C06 - try macros: a failed step aborts everything after it.  Model: Spec.v. *)
 From Coq Require Import List ZArith Lia.
 From Join Require Import Tok Names Ast Comp Std Denote Spec Leaves SpecProps.
+From Join Require Ir Gen RefineBase RefineChain RefineProg RefineTop.
 
 (* OBLIGATION failed_step_aborts *)
 (* For every continuation K (= all later steps), the check made after a non-final step is either K (nobody
@@ -30,3 +31,19 @@ Print Assumptions handler_not_called_after_failure.
 
 Example a_failing_list : first_fail_list [DV (VOk (VInt 1%Z)); DV (VErr (VInt 7%Z)); DV (VErr (VInt 9%Z))] = Some (DV (VErr (VInt 7%Z))).
 Proof. reflexivity. Qed.
+
+(* the tie between Spec.v and the generator model, PROVED for all eight kinds and all inputs (theories/proofs/RefineTop.v):
+   what is proved about `spec` above holds of the meaning of the generated code *)
+(* OBLIGATION generated_code_refines_reference_semantics *)
+Theorem generated_code_refines_reference_semantics :
+  forall (msem : string -> option (list operand) -> dval -> list dval -> comp dval)
+         (dotsem : operand -> list (string * option val) -> dval -> comp dval)
+         (callsem : val -> list dval -> comp dval) (awaitsem : val -> comp val),
+    (forall m tf r ds, RefineBase.leaves RefineChain.not_clo (msem m tf r ds)) ->
+    (forall o sn r, RefineBase.leaves RefineChain.not_clo (dotsem o sn r)) ->
+    (forall f ds, RefineBase.leaves RefineChain.not_clo (callsem f ds)) ->
+    forall (cfg : config) (inp : input) (e : Ir.rexpr) (sp : sprog),
+      RefineProg.wf inp -> Gen.gen cfg inp = Ir.Ok e -> prepare cfg inp = Some sp ->
+      den (user_names inp) msem dotsem callsem awaitsem e empty_env = spec msem dotsem callsem awaitsem sp.
+Proof. exact RefineTop.gen_refines_spec. Qed.
+Print Assumptions generated_code_refines_reference_semantics.
